@@ -2,42 +2,44 @@ import WaVerif.Model.C10Wat
 /-! # C10 — rewrite rules for symbolic execution of the WAT-subset interpreter (all by `rfl`) -/
 namespace WaVerif.C10.Wat
 
+/-! The rules are stated by `Eq.trans rfl rfl`, not `rfl`, on purpose: `simp` would use `rfl`-lemmas as definitional
+(`dsimp`) steps, and the kernel would then have to re-check whole goals by evaluation of the interpreter. -/
 variable (fs : List Func) (gl : String → Int) (f : Nat) (l st : List Int)
 
-theorem seqK_next (s : St) (k : St → Option (Ctl × St)) : seqK (some (.next, s)) k = k s := rfl
-theorem seqK_ret (s : St) (k : St → Option (Ctl × St)) : seqK (some (.returned, s)) k = some (.returned, s) := rfl
-theorem seqK_none (k : St → Option (Ctl × St)) : seqK none k = none := rfl
+theorem seqK_next (s : St) (k : St → Option (Ctl × St)) : seqK (some (.next, s)) k = k s := Eq.trans rfl rfl
+theorem seqK_ret (s : St) (k : St → Option (Ctl × St)) : seqK (some (.returned, s)) k = some (.returned, s) := Eq.trans rfl rfl
+theorem seqK_none (k : St → Option (Ctl × St)) : seqK none k = none := Eq.trans rfl rfl
 
-theorem run_nil (s : St) : run fs gl (f + 1) [] s = some (.next, s) := rfl
+theorem run_nil (s : St) : run fs gl (f + 1) [] s = some (.next, s) := Eq.trans rfl rfl
 theorem run_cons (i : Instr) (rest : List Instr) (s : St) :
-    run fs gl (f + 1) (i :: rest) s = seqK (step fs gl f i s) (run fs gl f rest) := rfl
+    run fs gl (f + 1) (i :: rest) s = seqK (step fs gl f i s) (run fs gl f rest) := Eq.trans rfl rfl
 
-theorem step_localGet (k : Nat) : step fs gl (f + 1) (.localGet k) ⟨l, st⟩ = some (.next, ⟨l, l.getD k 0 :: st⟩) := rfl
-theorem step_localSet (k : Nat) (v : Int) : step fs gl (f + 1) (.localSet k) ⟨l, v :: st⟩ = some (.next, ⟨l.set k v, st⟩) := rfl
-theorem step_localTee (k : Nat) (v : Int) : step fs gl (f + 1) (.localTee k) ⟨l, v :: st⟩ = some (.next, ⟨l.set k v, v :: st⟩) := rfl
-theorem step_globalGet (g : String) : step fs gl (f + 1) (.globalGet g) ⟨l, st⟩ = some (.next, ⟨l, gl g :: st⟩) := rfl
-theorem step_const (v : Int) : step fs gl (f + 1) (.i32Const v) ⟨l, st⟩ = some (.next, ⟨l, wrap32 v :: st⟩) := rfl
-theorem step_add (a b : Int) : step fs gl (f + 1) .i32Add ⟨l, b :: a :: st⟩ = some (.next, ⟨l, wrap32 (a + b) :: st⟩) := rfl
-theorem step_sub (a b : Int) : step fs gl (f + 1) .i32Sub ⟨l, b :: a :: st⟩ = some (.next, ⟨l, wrap32 (a - b) :: st⟩) := rfl
-theorem step_mul (a b : Int) : step fs gl (f + 1) .i32Mul ⟨l, b :: a :: st⟩ = some (.next, ⟨l, wrap32 (a * b) :: st⟩) := rfl
+theorem step_localGet (k : Nat) : step fs gl (f + 1) (.localGet k) ⟨l, st⟩ = some (.next, ⟨l, l.getD k 0 :: st⟩) := Eq.trans rfl rfl
+theorem step_localSet (k : Nat) (v : Int) : step fs gl (f + 1) (.localSet k) ⟨l, v :: st⟩ = some (.next, ⟨l.set k v, st⟩) := Eq.trans rfl rfl
+theorem step_localTee (k : Nat) (v : Int) : step fs gl (f + 1) (.localTee k) ⟨l, v :: st⟩ = some (.next, ⟨l.set k v, v :: st⟩) := Eq.trans rfl rfl
+theorem step_globalGet (g : String) : step fs gl (f + 1) (.globalGet g) ⟨l, st⟩ = some (.next, ⟨l, gl g :: st⟩) := Eq.trans rfl rfl
+theorem step_const (v : Int) : step fs gl (f + 1) (.i32Const v) ⟨l, st⟩ = some (.next, ⟨l, wrap32 v :: st⟩) := Eq.trans rfl rfl
+theorem step_add (a b : Int) : step fs gl (f + 1) .i32Add ⟨l, b :: a :: st⟩ = some (.next, ⟨l, wrap32 (a + b) :: st⟩) := Eq.trans rfl rfl
+theorem step_sub (a b : Int) : step fs gl (f + 1) .i32Sub ⟨l, b :: a :: st⟩ = some (.next, ⟨l, wrap32 (a - b) :: st⟩) := Eq.trans rfl rfl
+theorem step_mul (a b : Int) : step fs gl (f + 1) .i32Mul ⟨l, b :: a :: st⟩ = some (.next, ⟨l, wrap32 (a * b) :: st⟩) := Eq.trans rfl rfl
 theorem step_divS (a b : Int) : step fs gl (f + 1) .i32DivS ⟨l, b :: a :: st⟩ =
-    (divS a b).map fun r => (.next, ⟨l, r :: st⟩) := rfl
+    (divS a b).map fun r => (.next, ⟨l, r :: st⟩) := Eq.trans rfl rfl
 theorem step_remS (a b : Int) : step fs gl (f + 1) .i32RemS ⟨l, b :: a :: st⟩ =
-    (remS a b).map fun r => (.next, ⟨l, r :: st⟩) := rfl
-theorem step_leS (a b : Int) : step fs gl (f + 1) .i32LeS ⟨l, b :: a :: st⟩ = some (.next, ⟨l, b2i (decide (a ≤ b)) :: st⟩) := rfl
-theorem step_ltS (a b : Int) : step fs gl (f + 1) .i32LtS ⟨l, b :: a :: st⟩ = some (.next, ⟨l, b2i (decide (a < b)) :: st⟩) := rfl
-theorem step_gtS (a b : Int) : step fs gl (f + 1) .i32GtS ⟨l, b :: a :: st⟩ = some (.next, ⟨l, b2i (decide (a > b)) :: st⟩) := rfl
-theorem step_geS (a b : Int) : step fs gl (f + 1) .i32GeS ⟨l, b :: a :: st⟩ = some (.next, ⟨l, b2i (decide (a ≥ b)) :: st⟩) := rfl
-theorem step_eq (a b : Int) : step fs gl (f + 1) .i32Eq ⟨l, b :: a :: st⟩ = some (.next, ⟨l, b2i (decide (a = b)) :: st⟩) := rfl
-theorem step_ne (a b : Int) : step fs gl (f + 1) .i32Ne ⟨l, b :: a :: st⟩ = some (.next, ⟨l, b2i (decide (a ≠ b)) :: st⟩) := rfl
-theorem step_eqz (a : Int) : step fs gl (f + 1) .i32Eqz ⟨l, a :: st⟩ = some (.next, ⟨l, b2i (decide (a = 0)) :: st⟩) := rfl
-theorem step_drop (a : Int) : step fs gl (f + 1) .drop ⟨l, a :: st⟩ = some (.next, ⟨l, st⟩) := rfl
+    (remS a b).map fun r => (.next, ⟨l, r :: st⟩) := Eq.trans rfl rfl
+theorem step_leS (a b : Int) : step fs gl (f + 1) .i32LeS ⟨l, b :: a :: st⟩ = some (.next, ⟨l, b2i (decide (a ≤ b)) :: st⟩) := Eq.trans rfl rfl
+theorem step_ltS (a b : Int) : step fs gl (f + 1) .i32LtS ⟨l, b :: a :: st⟩ = some (.next, ⟨l, b2i (decide (a < b)) :: st⟩) := Eq.trans rfl rfl
+theorem step_gtS (a b : Int) : step fs gl (f + 1) .i32GtS ⟨l, b :: a :: st⟩ = some (.next, ⟨l, b2i (decide (a > b)) :: st⟩) := Eq.trans rfl rfl
+theorem step_geS (a b : Int) : step fs gl (f + 1) .i32GeS ⟨l, b :: a :: st⟩ = some (.next, ⟨l, b2i (decide (a ≥ b)) :: st⟩) := Eq.trans rfl rfl
+theorem step_eq (a b : Int) : step fs gl (f + 1) .i32Eq ⟨l, b :: a :: st⟩ = some (.next, ⟨l, b2i (decide (a = b)) :: st⟩) := Eq.trans rfl rfl
+theorem step_ne (a b : Int) : step fs gl (f + 1) .i32Ne ⟨l, b :: a :: st⟩ = some (.next, ⟨l, b2i (decide (a ≠ b)) :: st⟩) := Eq.trans rfl rfl
+theorem step_eqz (a : Int) : step fs gl (f + 1) .i32Eqz ⟨l, a :: st⟩ = some (.next, ⟨l, b2i (decide (a = 0)) :: st⟩) := Eq.trans rfl rfl
+theorem step_drop (a : Int) : step fs gl (f + 1) .drop ⟨l, a :: st⟩ = some (.next, ⟨l, st⟩) := Eq.trans rfl rfl
 theorem step_unreachable (s : St) : step fs gl (f + 1) .unreachable s = none := by
   unfold step; split <;> simp_all
 theorem step_ret (s : St) : step fs gl (f + 1) .ret s = some (.returned, s) := by
   unfold step; split <;> simp_all
 theorem step_if (t e : List Instr) (c : Int) : step fs gl (f + 1) (.ifElse t e) ⟨l, c :: st⟩ =
-    if c ≠ 0 then run fs gl f t ⟨l, st⟩ else run fs gl f e ⟨l, st⟩ := rfl
+    if c ≠ 0 then run fs gl f t ⟨l, st⟩ else run fs gl f e ⟨l, st⟩ := Eq.trans rfl rfl
 theorem step_block (b : List Instr) (s : St) : step fs gl (f + 1) (.block b) s = run fs gl f b s := by
   unfold step; split <;> simp_all
 theorem step_call (name : String) (fn : Func) (s : St) (h : findFunc fs name = some fn) (hp : fn.params ≤ s.stack.length) :
